@@ -81,6 +81,18 @@ theorem Pres.initBuiltins : Pres initBuiltins := by
   unfold MesonModel.Options.initBuiltins
   repeat (first | exact Pres.addBuiltinOption _ _ | pres_core)
 
+theorem Pres.initBuiltinsCross : Pres initBuiltinsCross := by
+  unfold MesonModel.Options.initBuiltinsCross
+  repeat (first | exact Pres.addBuiltinOption _ _ | pres_core)
+
+theorem Pres.coreDataInit : Pres coreDataInit := by
+  unfold MesonModel.Options.coreDataInit
+  apply Pres.bind Pres.get
+  intro s
+  split
+  · exact Pres.initBuiltinsCross
+  · exact Pres.initBuiltins
+
 theorem Pres.hardResetFromPrefix (p : Str) : Pres (hardResetFromPrefix p) := by
   unfold MesonModel.Options.hardResetFromPrefix; repeat pres_core
 
